@@ -138,6 +138,15 @@ void Solver::copyResult() {
 * another so that constraints internal to the block are satisfied.
 */
 bool Solver::satisfy() {
+    // The blocks were placed when the solver was constructed (or merged by
+    // an earlier call); the desired positions may have been changed since,
+    // and the left-to-right pass below needs every variable in a block of
+    // its own.  So start from scratch.
+    delete bs;
+    bs=new Blocks(vs);
+    for(unsigned i=0;i<m;i++) {
+        cs[i]->active=false;
+    }
     list<Variable*> *vList=bs->totalOrder();
     for(list<Variable*>::iterator i=vList->begin();i!=vList->end();++i) {
         Variable *v=*i;
